@@ -253,6 +253,16 @@ func (fr *Frame) backEdge(b, h *ssa.BasicBlock, e *State) {
 	if !pos.IsValid() && len(h.Instrs) > 0 {
 		pos = h.Instrs[0].Pos()
 	}
+	for _, cl := range fr.loopClauses(li, "loopinst") {
+		env := fr.envAt(b, e, nil)
+		env.atLatch = true
+		env.pre = li.headState
+		env.postPhis = back
+		if li.headState == nil {
+			continue
+		}
+		c.assume(e.reach, c.lemmaInstance(env, cl.Src, cl.File, cl.Line))
+	}
 	for _, cl := range fr.loopClauses(li, "invariant") {
 		env := fr.envAt(b, e, back)
 		env.atLatch = true
